@@ -210,7 +210,7 @@ func splitCoins(cs sdk.Coins, prefix string) []coin {
 		}
 		out = append(out, coin{id, c.Amount.Int64()})
 	}
-	sort.Slice(out, func(i, j int) bool { return out[i].D < out[j].D })
+	sort.Slice(out, func(i, j int) bool { return denoms[out[i].D] < denoms[out[j].D] }) // as sdk.Coins: by denom string
 	return out
 }
 
@@ -918,6 +918,8 @@ func main() {
 		first := true
 		emit := func(o *op) bool {
 			var ok bool
+			// message coins in the order the code iterates them (sdk.Coins are sorted by denom string)
+			sort.SliceStable(o.Amts, func(i, j int) bool { return denoms[o.Amts[i].D] < denoms[o.Amts[j].D] })
 			ctx, ok = w.exec(ctx, h, o)
 			aux := fmt.Sprintf("[%d; %d]", o.SignedCnt, o.PowerSeen)
 			ob := "None"
